@@ -164,7 +164,7 @@ func (d *DFA) FindAt(cache *DFACache, haystack []byte, at int) int {
 	if at == len(haystack) {
 		// At end of input - check if the empty string matches HERE (look-around
 		// is evaluated against the byte before 'at', not against an empty haystack)
-		if d.matchesEmptyAt(haystack, at) {
+		if d.matchesEmptyAt(cache, haystack, at) {
 			return at
 		}
 		return -1
@@ -193,7 +193,7 @@ func (d *DFA) SearchAt(cache *DFACache, haystack []byte, at int) int {
 	}
 
 	if at == len(haystack) {
-		if d.matchesEmptyAt(haystack, at) {
+		if d.matchesEmptyAt(cache, haystack, at) {
 			return at
 		}
 		return -1
@@ -227,7 +227,7 @@ func (d *DFA) SearchAtAnchoredStopAt(cache *DFACache, haystack []byte, at int) (
 	}
 
 	if at == len(haystack) {
-		if d.matchesEmptyAt(haystack, at) {
+		if d.matchesEmptyAt(cache, haystack, at) {
 			return at, at
 		}
 		return -1, at
@@ -296,7 +296,7 @@ func (d *DFA) SearchAtAnchoredStopAt(cache *DFACache, haystack []byte, at int) (
 	// The current state's NFA states may contain a match that hasn't been
 	// reported yet (no more bytes to trigger the delay).
 	eoi := cache.getState(sid)
-	if eoi != nil && d.checkEOIMatch(eoi) {
+	if eoi != nil && d.checkEOIMatch(cache, eoi) {
 		return len(haystack), len(haystack)
 	}
 
@@ -316,7 +316,7 @@ func (d *DFA) SearchFirstAt(cache *DFACache, haystack []byte, at int) int {
 	}
 
 	if at == len(haystack) {
-		if d.matchesEmptyAt(haystack, at) {
+		if d.matchesEmptyAt(cache, haystack, at) {
 			return at
 		}
 		return -1
@@ -475,7 +475,7 @@ func (d *DFA) searchFirstAt(cache *DFACache, haystack []byte, startPos int) int 
 
 	// EOI match check
 	eoi := cache.getState(sid)
-	if eoi != nil && d.checkEOIMatch(eoi) {
+	if eoi != nil && d.checkEOIMatch(cache, eoi) {
 		return len(haystack)
 	}
 
@@ -495,7 +495,7 @@ func (d *DFA) searchFirstAt(cache *DFACache, haystack []byte, startPos int) int 
 //	}
 func (d *DFA) IsMatch(cache *DFACache, haystack []byte) bool {
 	if len(haystack) == 0 {
-		return d.matchesEmptyAt(haystack, 0)
+		return d.matchesEmptyAt(cache, haystack, 0)
 	}
 
 	// With tagged start states, searchEarliestMatch handles prefilter correctly:
@@ -512,7 +512,7 @@ func (d *DFA) IsMatch(cache *DFACache, haystack []byte) bool {
 func (d *DFA) IsMatchAt(cache *DFACache, haystack []byte, at int) bool {
 	if at >= len(haystack) {
 		if at == len(haystack) {
-			return d.matchesEmptyAt(haystack, at)
+			return d.matchesEmptyAt(cache, haystack, at)
 		}
 		return false
 	}
@@ -779,7 +779,7 @@ func (d *DFA) searchEarliestMatch(cache *DFACache, haystack []byte, startPos int
 	// Example: pattern `test\b` matching "test" - the \b is satisfied at EOI
 	// because prev='t'(word), next=none(non-word) → word boundary.
 	eoi := cache.getState(sid)
-	return eoi != nil && d.checkEOIMatch(eoi)
+	return eoi != nil && d.checkEOIMatch(cache, eoi)
 }
 
 // searchEarliestMatchAnchored performs ANCHORED DFA search with early termination.
@@ -855,7 +855,7 @@ func (d *DFA) searchEarliestMatchAnchored(cache *DFACache, haystack []byte, star
 	}
 
 	eoi := cache.getState(sid)
-	return eoi != nil && d.checkEOIMatch(eoi)
+	return eoi != nil && d.checkEOIMatch(cache, eoi)
 }
 
 // findWithPrefilterAt searches using prefilter to accelerate unanchored search.
@@ -985,7 +985,7 @@ func (d *DFA) findWithPrefilterAt(cache *DFACache, haystack []byte, startAt int)
 
 	// EOI check for delayed match
 	eoi := cache.getState(sid)
-	if eoi != nil && d.checkEOIMatch(eoi) {
+	if eoi != nil && d.checkEOIMatch(cache, eoi) {
 		return len(haystack)
 	}
 
@@ -1243,7 +1243,7 @@ func (d *DFA) searchAt(cache *DFACache, haystack []byte, startPos int) int { //n
 
 	// EOI: check for delayed match at end of input
 	eoi := cache.getState(sid)
-	if eoi != nil && d.checkEOIMatch(eoi) {
+	if eoi != nil && d.checkEOIMatch(cache, eoi) {
 		return len(haystack)
 	}
 
@@ -1271,9 +1271,12 @@ func (d *DFA) searchAt(cache *DFACache, haystack []byte, startPos int) int { //n
 //
 //	or if determinization limit exceeded.
 func (d *DFA) determinize(cache *DFACache, current *State, b byte) (*State, error) {
-	// Need builder for move operations.
-	// Use NewBuilderWithWordBoundary to pass pre-computed flag and avoid O(states) scan.
-	builder := NewBuilderWithWordBoundary(d.nfa, d.config, d.hasWordBoundary)
+	// Need builder for move operations (a value on the stack: it carries the
+	// pre-computed word boundary flag and avoids an O(states) scan).
+	// All NFA state lists are computed in the scratch buffers of the cache: nothing
+	// is allocated unless a new DFA state has to be created.
+	builder := d.newBuilder()
+	sc := &cache.scratch
 
 	// Convert input byte to equivalence class index for transition storage
 	// The actual byte value is still used for NFA move operations
@@ -1290,7 +1293,8 @@ func (d *DFA) determinize(cache *DFACache, current *State, b byte) (*State, erro
 	// that waits in front of them.
 	currentNFAStates := current.NFAStates()
 	if d.hasWordBoundary || (d.hasEndLine && b == '\n') {
-		currentNFAStates = builder.resolveLookAhead(currentNFAStates, current.lookHave, current.IsFromWord(), b)
+		sc.resolved = builder.resolveLookAheadTo(sc, sc.resolved, currentNFAStates, current.lookHave, current.IsFromWord(), b)
+		currentNFAStates = sc.resolved
 	}
 
 	// 1-byte match delay (Rust determinize mod.rs:254-286):
@@ -1311,7 +1315,8 @@ func (d *DFA) determinize(cache *DFACache, current *State, b byte) (*State, erro
 	// committed match unless a thread of higher priority is still alive.
 	// BreakAtMatch is disabled for reverse DFAs to allow finding leftmost start.
 	breakAtMatch := sourceHasMatch && d.config.BreakAtMatch
-	nextNFAStates := builder.step(currentNFAStates, b, breakAtMatch)
+	sc.next = builder.stepTo(sc, sc.next, currentNFAStates, b, breakAtMatch)
+	nextNFAStates := sc.next
 
 	isMatch := sourceHasMatch
 
@@ -1328,10 +1333,7 @@ func (d *DFA) determinize(cache *DFACache, current *State, b byte) (*State, erro
 	// Check if we've exceeded determinization limit
 	if len(nextNFAStates) > d.config.DeterminizationLimit {
 		// Too many NFA states: fall back to avoid exponential blowup
-		return nil, &DFAError{
-			Kind:    StateLimitExceeded,
-			Message: "determinization limit exceeded",
-		}
+		return nil, errDeterminizationLimit
 	}
 
 	// The next state's isFromWord is determined by the CURRENT byte
@@ -1359,13 +1361,11 @@ func (d *DFA) determinize(cache *DFACache, current *State, b byte) (*State, erro
 		return existing, nil
 	}
 
-	// Create new DFA state with word context and compressed alphabet stride
-	newState := NewStateWithStride(InvalidState, nextNFAStates, isMatch, nextIsFromWord, d.AlphabetLen())
-	newState.lookHave = nextLookHave
-
-	// Insert into cache
-	_, err := cache.Insert(key, newState)
-	if err != nil {
+	// The state is new. If there is no room for it (Insert would fail), clear the
+	// cache first - or give up before anything is allocated: a cache that is full
+	// for good (MaxCacheClears reached) sends every search through here.
+	if cache.IsFull() {
+		cache.misses++ // the failed Insert
 		// Cache is full. Try to clear and continue instead of NFA fallback.
 		if clearErr := d.tryClearCache(cache); clearErr != nil {
 			// Max clears exceeded - fall back to NFA
@@ -1373,21 +1373,31 @@ func (d *DFA) determinize(cache *DFACache, current *State, b byte) (*State, erro
 		}
 		// Cache was cleared successfully: every state, `current` included, is
 		// gone from it. The threads that are in flight are exactly those of
-		// newState, so the search continues with newState, inserted into the
+		// the new state, so the search continues with it, inserted into the
 		// fresh cache. (Restarting from a start state at the current position,
 		// as the loops used to do, loses them.) The transition from `current`
 		// cannot be recorded - its row does not exist anymore.
+		// (tryClearCache does not touch sc.next, see searchScratch.)
 		if existing, ok := cache.Get(key); ok {
-			// newState is the start state that tryClearCache has just rebuilt.
+			// The new state is the start state that tryClearCache has just rebuilt.
 			return existing, nil
 		}
-		if _, err = cache.Insert(key, newState); err != nil {
+		newState := NewStateWithStride(InvalidState, nextNFAStates, isMatch, nextIsFromWord, d.AlphabetLen())
+		newState.lookHave = nextLookHave
+		if _, err := cache.Insert(key, newState); err != nil {
 			// Not even room for a single state after a clear: give up.
 			return nil, err
 		}
 		cache.registerState(newState)
 		return newState, nil
 	}
+
+	// Create new DFA state with word context and compressed alphabet stride
+	newState := NewStateWithStride(InvalidState, nextNFAStates, isMatch, nextIsFromWord, d.AlphabetLen())
+	newState.lookHave = nextLookHave
+
+	// Insert into cache (the key is new and there is room, see above)
+	cache.insertNew(key, newState)
 
 	// Register state in ID lookup map
 	cache.registerState(newState)
@@ -1397,6 +1407,19 @@ func (d *DFA) determinize(cache *DFACache, current *State, b byte) (*State, erro
 	cache.SetFlatTransition(current.id, int(classIdx), newState.ID())
 
 	return newState, nil
+}
+
+// errDeterminizationLimit is returned by determinize when a DFA state would hold
+// more NFA states than Config.DeterminizationLimit allows.
+var errDeterminizationLimit = &DFAError{
+	Kind:    StateLimitExceeded,
+	Message: "determinization limit exceeded",
+}
+
+// newBuilder returns a Builder for the closure and step operations of this DFA,
+// with the pre-computed word boundary flag.
+func (d *DFA) newBuilder() Builder {
+	return Builder{nfa: d.nfa, config: d.config, hasWordBoundary: d.hasWordBoundary}
 }
 
 // containsNFAMatch checks if any of the given NFA state IDs is a match state.
@@ -1436,9 +1459,14 @@ func (d *DFA) tryClearCache(cache *DFACache) error {
 	// Rebuild the start state from scratch.
 	// This is necessary because the search needs a valid start state to
 	// re-initialize from the current position.
-	builder := NewBuilderWithWordBoundary(d.nfa, d.config, d.hasWordBoundary)
+	// (The closure goes to scratch.resolved only: the callers keep the thread list of
+	// the state they are about to insert in scratch.next.)
+	builder := d.newBuilder()
+	sc := &cache.scratch
 	startLook := LookSetFromStartKind(StartText)
-	startStateSet := builder.epsilonClosure([]nfa.StateID{d.nfa.StartUnanchored()}, startLook)
+	seed := [1]nfa.StateID{d.nfa.StartUnanchored()}
+	sc.resolved = builder.epsilonClosureTo(sc, sc.resolved, seed[:], startLook)
+	startStateSet := sc.resolved
 	// With 1-byte match delay, start states are never match states.
 	startState := NewStateWithStride(StartState, startStateSet, false, false, d.AlphabetLen())
 	startState.lookHave = startLook & d.lookBehindMask
@@ -1465,15 +1493,19 @@ func (d *DFA) tryClearCache(cache *DFACache) error {
 //   - "Next" byte is conceptually non-word (outside the string)
 //   - \b is satisfied if previous was word char (word → non-word transition)
 //   - \B is satisfied if previous was non-word char (non-word → non-word)
-func (d *DFA) checkEOIMatch(state *State) bool {
+func (d *DFA) checkEOIMatch(cache *DFACache, state *State) bool {
 	if state == nil {
 		return false
 	}
 
-	// Create a temporary builder for EOI resolution
-	// Use NewBuilderWithWordBoundary to avoid O(states) scan per call (Issue #105)
-	builder := NewBuilderWithWordBoundary(d.nfa, d.config, d.hasWordBoundary)
-	return builder.checkEOIMatchLook(state.NFAStates(), state.IsFromWord(), state.lookHave)
+	// One closure with the complete look set of the end position (see
+	// Builder.checkEOIMatchLook), computed in the scratch buffers of the cache:
+	// every search that reaches the end of the input comes through here.
+	builder := d.newBuilder()
+	sc := &cache.scratch
+	look := eoiLookSet(state.IsFromWord(), state.lookHave)
+	sc.resolved = builder.epsilonClosureTo(sc, sc.resolved, state.NFAStates(), look)
+	return builder.containsMatchState(sc.resolved)
 }
 
 // getStartState returns the appropriate start state for the given position.
@@ -1500,16 +1532,33 @@ func (d *DFA) getStartState(cache *DFACache, haystack []byte, pos int, anchored 
 		return cache.getState(stateID)
 	}
 
-	// Not cached - compute and store with proper stride for ByteClasses compression
-	state, key := d.computeStartState(StartConfig{Kind: kind, Anchored: anchored})
+	// Not cached - compute it and store it for the following searches
+	return d.addStartState(cache, kind, anchored)
+}
 
-	// Try to insert into cache using GetOrInsert
-	// This handles the case where another goroutine may have inserted it
-	insertedState, existed, err := cache.GetOrInsert(key, state)
-	if err != nil {
-		// Cache full: a state without a row in the transition table must not
-		// reach the search loops (see startStateAfterClear).
-		return d.startStateAfterClear(cache, kind, anchored, key, state)
+// addStartState computes the start state for a start configuration, makes sure it
+// is in the cache and records it in the StartTable. It returns nil if the cache is
+// full and may not be cleared anymore (the caller falls back to the NFA).
+//
+// The thread list is computed in the scratch buffers of the cache and looked up
+// first: a State is only allocated when it has to be inserted. In particular a
+// cache that is full for good, which sends every search that needs a missing start
+// state through here, costs no allocation.
+func (d *DFA) addStartState(cache *DFACache, kind StartKind, anchored bool) *State {
+	config := StartConfig{Kind: kind, Anchored: anchored}
+	nfaStates, isFromWord, lookHave, key := d.computeStartThreads(cache, config)
+
+	insertedState, existed := cache.Get(key)
+	if !existed {
+		if cache.IsFull() {
+			cache.misses++ // the failed Insert
+			// Cache full: a state without a row in the transition table must not
+			// reach the search loops (see startStateAfterClear).
+			return d.startStateAfterClear(cache, config, key)
+		}
+		insertedState = NewStateWithStride(InvalidState, nfaStates, false, isFromWord, d.AlphabetLen())
+		insertedState.lookHave = lookHave
+		cache.insertNew(key, insertedState)
 	}
 
 	// Register in ID lookup map (only if we inserted a new state)
@@ -1529,16 +1578,29 @@ func (d *DFA) getStartState(cache *DFACache, haystack []byte, pos int, anchored 
 	return insertedState
 }
 
-// computeStartState builds the (not yet cached) start state for a start
-// configuration and its cache key. The state records the look-behind assertions
-// that hold at the start position (restricted to the kinds the NFA contains): the
-// same context its epsilon closure was computed with.
-func (d *DFA) computeStartState(config StartConfig) (*State, StateKey) {
-	builder := NewBuilderWithWordBoundary(d.nfa, d.config, d.hasWordBoundary)
-	state, _ := ComputeStartStateWithStride(builder, d.nfa, config, d.AlphabetLen())
-	state.lookHave = LookSetFromStartKind(config.Kind) & d.lookBehindMask
-	key := computeStateKey(state.NFAStates(), state.IsFromWord(), state.IsMatch(), state.lookHave)
-	return state, key
+// computeStartThreads computes what identifies the start state of a start
+// configuration: its thread list (in cache.scratch.next, valid until that buffer
+// is written again), its word context, the look-behind assertions that hold at the
+// start position (restricted to the kinds the NFA contains: the same context the
+// epsilon closure was computed with) and its cache key. See ComputeStartStateWithStride.
+func (d *DFA) computeStartThreads(cache *DFACache, config StartConfig) (nfaStates []nfa.StateID, isFromWord bool, lookHave LookSet, key StateKey) {
+	builder := d.newBuilder()
+	sc := &cache.scratch
+
+	var seed [1]nfa.StateID
+	if config.Anchored {
+		seed[0] = d.nfa.StartAnchored()
+	} else {
+		seed[0] = d.nfa.StartUnanchored()
+	}
+	sc.next = builder.epsilonClosureTo(sc, sc.next, seed[:], LookSetFromStartKind(config.Kind))
+	nfaStates = sc.next
+
+	// With 1-byte match delay, start states are never match states.
+	isFromWord = config.Kind == StartWord
+	lookHave = LookSetFromStartKind(config.Kind) & d.lookBehindMask
+	key = computeStateKey(nfaStates, isFromWord, false, lookHave)
+	return nfaStates, isFromWord, lookHave, key
 }
 
 // getStartStateForUnanchored is a convenience method for unanchored search.
@@ -1584,7 +1646,7 @@ func (d *DFA) nfaFallback(haystack []byte, startPos int) int {
 //
 // The anchored and the unanchored start state give the same answer here: the
 // unanchored prefix can only add threads by consuming a byte.
-func (d *DFA) matchesEmptyAt(haystack []byte, at int) bool {
+func (d *DFA) matchesEmptyAt(cache *DFACache, haystack []byte, at int) bool {
 	look := LookEndText | LookEndLine
 	prevIsWord := false
 	if at == 0 {
@@ -1603,9 +1665,17 @@ func (d *DFA) matchesEmptyAt(haystack []byte, at int) bool {
 		look |= LookNoWordBoundary
 	}
 
-	builder := NewBuilderWithWordBoundary(d.nfa, d.config, d.hasWordBoundary)
-	closure := builder.epsilonClosure([]nfa.StateID{d.nfa.StartAnchored()}, look)
-	return builder.containsMatchState(closure)
+	builder := d.newBuilder()
+	if cache == nil {
+		closure := builder.epsilonClosure([]nfa.StateID{d.nfa.StartAnchored()}, look)
+		return builder.containsMatchState(closure)
+	}
+	// Every FindAll iteration ends with this question: answer it in the scratch
+	// buffers of the cache.
+	sc := &cache.scratch
+	seed := [1]nfa.StateID{d.nfa.StartAnchored()}
+	sc.resolved = builder.epsilonClosureTo(sc, sc.resolved, seed[:], look)
+	return builder.containsMatchState(sc.resolved)
 }
 
 // tryDetectAccelerationWithCache attempts acceleration detection using flatTrans.
@@ -1741,7 +1811,7 @@ func (d *DFA) SearchReverse(cache *DFACache, haystack []byte, start, end int) in
 	// Get start state for reverse search
 	currentState := d.getStartStateForReverse(cache, haystack, end)
 	if currentState == nil {
-		return d.nfaFallbackReverse(haystack, start, end)
+		return d.nfaFallbackReverse(cache, haystack, start, end)
 	}
 
 	lastMatch := -1
@@ -1835,11 +1905,11 @@ func (d *DFA) SearchReverse(cache *DFACache, haystack []byte, start, end int) in
 		case InvalidState:
 			currentState = cache.getState(sid)
 			if currentState == nil {
-				return d.nfaFallbackReverse(haystack, start, end)
+				return d.nfaFallbackReverse(cache, haystack, start, end)
 			}
 			nextState, err := d.determinize(cache, currentState, b)
 			if err != nil {
-				return d.nfaFallbackReverse(haystack, start, end)
+				return d.nfaFallbackReverse(cache, haystack, start, end)
 			}
 			if nextState == nil {
 				return lastMatch
@@ -1908,7 +1978,7 @@ func (d *DFA) SearchReverseLimited(cache *DFACache, haystack []byte, start, end,
 
 	currentState := d.getStartStateForReverse(cache, haystack, end)
 	if currentState == nil {
-		return d.nfaFallbackReverseLimited(haystack, start, end, minStart)
+		return d.nfaFallbackReverseLimited(cache, haystack, start, end, minStart)
 	}
 
 	lastMatch := -1
@@ -1941,11 +2011,11 @@ func (d *DFA) SearchReverseLimited(cache *DFACache, haystack []byte, start, end,
 		case InvalidState:
 			currentState = cache.getState(sid)
 			if currentState == nil {
-				return d.nfaFallbackReverseLimited(haystack, start, end, minStart)
+				return d.nfaFallbackReverseLimited(cache, haystack, start, end, minStart)
 			}
 			nextState, err := d.determinize(cache, currentState, b)
 			if err != nil {
-				return d.nfaFallbackReverseLimited(haystack, start, end, minStart)
+				return d.nfaFallbackReverseLimited(cache, haystack, start, end, minStart)
 			}
 			if nextState == nil {
 				return lastMatch
@@ -1994,7 +2064,7 @@ func (d *DFA) IsMatchReverse(cache *DFACache, haystack []byte, start, end int) b
 
 	currentState := d.getStartStateForReverse(cache, haystack, end)
 	if currentState == nil {
-		return d.nfaFallbackIsMatchReverse(haystack, start, end)
+		return d.nfaFallbackIsMatchReverse(cache, haystack, start, end)
 	}
 
 	// With 1-byte match delay, start states are never match states.
@@ -2021,11 +2091,11 @@ func (d *DFA) IsMatchReverse(cache *DFACache, haystack []byte, start, end int) b
 		case InvalidState:
 			currentState = cache.getState(sid)
 			if currentState == nil {
-				return d.nfaFallbackIsMatchReverse(haystack, start, end)
+				return d.nfaFallbackIsMatchReverse(cache, haystack, start, end)
 			}
 			nextState, err := d.determinize(cache, currentState, b)
 			if err != nil {
-				return d.nfaFallbackIsMatchReverse(haystack, start, end)
+				return d.nfaFallbackIsMatchReverse(cache, haystack, start, end)
 			}
 			if nextState == nil {
 				return false
@@ -2068,19 +2138,27 @@ func (d *DFA) IsMatchReverse(cache *DFACache, haystack []byte, start, end int) b
 // Clearing here is safe: start states are requested at the beginning of a search
 // or at points where the search loop drops its current state and continues from
 // the returned start state only.
-func (d *DFA) startStateAfterClear(cache *DFACache, kind StartKind, anchored bool, key StateKey, state *State) *State {
+func (d *DFA) startStateAfterClear(cache *DFACache, config StartConfig, key StateKey) *State {
 	if err := d.tryClearCache(cache); err != nil {
 		return nil
 	}
-	insertedState, existed, err := cache.GetOrInsert(key, state)
-	if err != nil {
-		return nil
+	insertedState, existed := cache.Get(key)
+	if !existed {
+		// The thread list is still in scratch.next (tryClearCache does not write it).
+		nfaStates := cache.scratch.next
+		state := NewStateWithStride(InvalidState, nfaStates, false, config.Kind == StartWord, d.AlphabetLen())
+		state.lookHave = LookSetFromStartKind(config.Kind) & d.lookBehindMask
+		var err error
+		insertedState, existed, err = cache.GetOrInsert(key, state)
+		if err != nil {
+			return nil
+		}
 	}
 	if !existed {
 		cache.registerState(insertedState)
 	}
 	insertedState.id = insertedState.id.WithStartTag()
-	cache.startTable.Set(kind, anchored, insertedState.ID())
+	cache.startTable.Set(config.Kind, config.Anchored, insertedState.ID())
 	return insertedState
 }
 
@@ -2102,30 +2180,15 @@ func (d *DFA) getStartStateForReverse(cache *DFACache, haystack []byte, end int)
 		return cache.getState(stateID)
 	}
 
-	// Not cached - compute and store with proper stride for ByteClasses compression
-	state, key := d.computeStartState(StartConfig{Kind: kind, Anchored: false})
-
-	insertedState, existed, err := cache.GetOrInsert(key, state)
-	if err != nil {
-		return d.startStateAfterClear(cache, kind, false, key, state)
-	}
-
-	if !existed {
-		cache.registerState(insertedState)
-	}
-
-	// Tag as start state (same as forward getStartState)
-	insertedState.id = insertedState.id.WithStartTag()
-
-	cache.startTable.Set(kind, false, insertedState.ID())
-	return insertedState
+	// Not cached - compute it and store it (tagged as start state, like forward)
+	return d.addStartState(cache, kind, false)
 }
 
 // nfaFallbackReverse handles NFA fallback for reverse search: it is called when
 // the reverse DFA gives up (cache full, determinization limit) and returns what
 // SearchReverse(haystack, start, end) would have returned.
-func (d *DFA) nfaFallbackReverse(haystack []byte, start, end int) int {
-	return d.nfaFallbackReverseLimited(haystack, start, end, start)
+func (d *DFA) nfaFallbackReverse(cache *DFACache, haystack []byte, start, end int) int {
+	return d.nfaFallbackReverseLimited(cache, haystack, start, end, start)
 }
 
 // nfaFallbackReverseLimited is the NFA fallback of SearchReverseLimited: the result
@@ -2145,37 +2208,39 @@ func (d *DFA) nfaFallbackReverse(haystack []byte, start, end int) int {
 // transition function that determinize memoises (look-ahead resolution, 1-byte
 // match delay, step), without a limit on the size of the set. The result is by
 // construction the one the DFA search loops compute. O((end-start) * states) time,
-// no cache memory; the state sets come from the package-level pool.
-func (d *DFA) nfaFallbackReverseLimited(haystack []byte, start, end, minStart int) int {
-	return d.reverseWalk(haystack, start, end, minStart, false)
+// no cache memory; the state lists live in the scratch buffers of the cache, so the
+// walk allocates nothing.
+func (d *DFA) nfaFallbackReverseLimited(cache *DFACache, haystack []byte, start, end, minStart int) int {
+	return d.reverseWalk(cache, haystack, start, end, minStart, false)
 }
 
 // nfaFallbackIsMatchReverse is the NFA fallback of IsMatchReverse (see
 // nfaFallbackReverseLimited): true iff the reverse search over haystack[start:end]
 // reaches a match state at all.
-func (d *DFA) nfaFallbackIsMatchReverse(haystack []byte, start, end int) bool {
-	return d.reverseWalk(haystack, start, end, start, true) >= 0
+func (d *DFA) nfaFallbackIsMatchReverse(cache *DFACache, haystack []byte, start, end int) bool {
+	return d.reverseWalk(cache, haystack, start, end, start, true) >= 0
 }
 
 // reverseWalk is the uncached reverse search behind the reverse NFA fallbacks (see
 // nfaFallbackReverseLimited). With earliest set it returns at the first match
 // state (IsMatchReverse) instead of looking for the leftmost start.
-func (d *DFA) reverseWalk(haystack []byte, start, end, minStart int, earliest bool) int {
+func (d *DFA) reverseWalk(cache *DFACache, haystack []byte, start, end, minStart int, earliest bool) int {
 	if end <= start || end > len(haystack) {
 		return -1
 	}
 
-	builder := NewBuilderWithWordBoundary(d.nfa, d.config, d.hasWordBoundary)
+	builder := d.newBuilder()
+	sc := &cache.scratch
 
 	// Start state: same configuration as getStartStateForReverse.
 	kind := StartText
 	if end < len(haystack) {
 		kind = d.startByteMap[haystack[end]]
 	}
-	startState, _ := d.computeStartState(StartConfig{Kind: kind, Anchored: false})
-	states := startState.NFAStates()
-	lookHave := startState.lookHave
-	isFromWord := startState.IsFromWord()
+	// The current thread list alternates between scratch.next (where
+	// computeStartThreads puts the first one) and scratch.walk.
+	states, isFromWord, lookHave, _ := d.computeStartThreads(cache, StartConfig{Kind: kind, Anchored: false})
+	spare := sc.walk
 
 	lowerBound := start
 	if minStart > lowerBound {
@@ -2189,31 +2254,36 @@ func (d *DFA) reverseWalk(haystack []byte, start, end, minStart int, earliest bo
 		// The body of determinize, minus the cache.
 		resolved := states
 		if d.hasWordBoundary || (d.hasEndLine && b == '\n') {
-			resolved = builder.resolveLookAhead(states, lookHave, isFromWord, b)
+			sc.resolved = builder.resolveLookAheadTo(sc, sc.resolved, states, lookHave, isFromWord, b)
+			resolved = sc.resolved
 		}
 		sourceHasMatch := builder.containsMatchState(resolved)
-		next := builder.step(resolved, b, sourceHasMatch && d.config.BreakAtMatch)
+		next := builder.stepTo(sc, spare, resolved, b, sourceHasMatch && d.config.BreakAtMatch)
 
 		// 1-byte match delay: the state after this byte is a match state iff the
 		// source set contains a match; the search loops then record at+1.
 		if sourceHasMatch {
 			lastMatch = at + 1
 			if earliest {
+				sc.next, sc.walk = states[:0], next[:0]
 				return lastMatch
 			}
 		}
 		if len(next) == 0 {
 			// Dead state (after a dead-end match state, if sourceHasMatch).
+			sc.next, sc.walk = states[:0], next[:0]
 			return lastMatch
 		}
 
-		states = next
+		states, spare = next, states
 		isFromWord = isWordByte(b)
 		lookHave = LookNone
 		if b == '\n' {
 			lookHave = LookStartLine & d.lookBehindMask
 		}
 	}
+	// Keep both (possibly grown) buffers for the next search.
+	sc.next, sc.walk = states[:0], spare[:0]
 
 	// EOI for reverse: delayed match at the region start.
 	if containsNFAMatch(d.nfa, states) {
